@@ -32,6 +32,11 @@ ASSUMPTIONS = [
 MIN_NONTRIVIAL = 40
 
 KINDS = ['h1', 'h1', 'h1', 'undefined', 'hdiv', 'hcurl', 'l2']
+# names the caller may give to the normal vector of a condition u.n / grad(u).n: the statement admits these shapes
+# whatever the NormalVector object is called ('nn' is the name sympde's own tests use, 'n' the one its calculus
+# and printers use); added after the seeded change C18-10, which hard-wired the name 'nn'
+NORMAL_NAMES = ['nn', 'nn', 'nn', 'n', 'n', 'normal', 'nu', 'N', 'n_Gamma']
+NORMAL_SHAPES = ('u.n', 'n.u', 'dn')
 
 
 def mods():
@@ -190,18 +195,19 @@ class System:
             s += ['dn', 'dn']
         return s
 
-    def build_lhs(self, shape, u, comp):
+    def build_lhs(self, shape, u, comp, nname=None):
         m = self.m
         if shape == 'u':
             return u
         if shape == 'u[i]':
             return u[comp]
+        nn = self.nn if nname in (None, 'nn') else m['NormalVector'](nname)
         if shape == 'u.n':
-            return m['dot'](u, self.nn)
+            return m['dot'](u, nn)
         if shape == 'n.u':
-            return m['dot'](self.nn, u)
+            return m['dot'](nn, u)
         if shape == 'dn':
-            return m['dot'](m['grad'](u), self.nn)
+            return m['dot'](m['grad'](u), nn)
         raise ValueError(shape)
 
     def expected(self, shape, u, comp, ic0):
@@ -235,8 +241,10 @@ class System:
         # sometimes the caller writes the condition with a RE-CREATED element of the same space (same name:
         # equal to the trial function, but another Python object), as element_of(V, 'u') called twice does
         twin = rng.random() < 0.12
+        # the name of the normal vector the condition is written with (only used by u.n, n.u, grad(u).n)
+        nname = rng.choice(NORMAL_NAMES)
         return dict(shape=shape, fn=u, comp=comp, faces=self.rand_faces(rng), rhs=self.rand_rhs(rng), pos0=pos0, ic0=ic0,
-                    twin=twin)
+                    twin=twin, nname=nname)
 
     def lhs_of(self, d):
         """the left-hand side of a declaration, written with the declared function itself or (twin) with a
@@ -244,7 +252,7 @@ class System:
         u = d['fn']
         if d.get('twin'):
             u = u.space.element(u.name)
-        return self.build_lhs(d['shape'], u, d['comp'])
+        return self.build_lhs(d['shape'], u, d['comp'], d.get('nname'))
 
     def make(self, d):
         """a fresh EssentialBC for a declaration"""
@@ -503,10 +511,17 @@ def correspondence(ctx):
 
 # --------------------------------------------------------------------------- oracle
 
+def normal_of(d):
+    """the name of the normal vector a declaration is written with (None for u and u[i])"""
+    return (d.get('nname') or 'nn') if d['shape'] in NORMAL_SHAPES else None
+
+
 def decl_str(S, d):
-    return '%s[%s%s%s on %d face(s), rhs=%s]' % (d['shape'], d['fn'].name, '' if d['comp'] is None else ',%d' % d['comp'],
-                                                  ' (written with a re-created equal element)' if d.get('twin') else '',
-                                                  len(d['faces']), d['rhs'])
+    nname = normal_of(d)
+    return '%s[%s%s%s%s on %d face(s), rhs=%s]' % (d['shape'], d['fn'].name, '' if d['comp'] is None else ',%d' % d['comp'],
+                                                    ' (written with a re-created equal element)' if d.get('twin') else '',
+                                                    '' if nname in (None, 'nn') else ', normal vector named %r' % nname,
+                                                    len(d['faces']), d['rhs'])
 
 
 def same_fn(a, b):
@@ -532,10 +547,14 @@ def check_equation(o, S, decls, use_find, m):
         try:
             objs.append(S.make(d))
         except Exception as e:
+            nname = normal_of(d)
             key = 'admitted-refused:%s:%s:%s' % (d['shape'], 'vector' if S.is_vec(d['fn']) else 'scalar', S.kind_of[id(d['fn'])])
-            return key, ('EssentialBC refuses the admitted left-hand side %s of a %s unknown of a %s space: %s(%s)' % (
-                d['shape'], 'vector' if S.is_vec(d['fn']) else 'scalar', S.kind_of[id(d['fn'])], type(e).__name__, e)), \
-                dict(shape=d['shape'], kind=S.kind_of[id(d['fn'])], vector=S.is_vec(d['fn']), dim=S.dim)
+            if nname not in (None, 'nn'):
+                key += ':normal-named-' + nname
+            return key, ('EssentialBC refuses the admitted left-hand side %s%s of a %s unknown of a %s space: %s(%s)' % (
+                d['shape'], '' if nname is None else ' (written with NormalVector(%r))' % nname,
+                'vector' if S.is_vec(d['fn']) else 'scalar', S.kind_of[id(d['fn'])], type(e).__name__, e)), \
+                dict(shape=d['shape'], kind=S.kind_of[id(d['fn'])], vector=S.is_vec(d['fn']), dim=S.dim, normal=nname or 'nn')
     desc = '; '.join(decl_str(S, d) for d in decls)
     sysd = 'trials=%s dim=%d' % ([u.name for u in S.trials], S.dim)
     non_trial = [d for d in decls if not any(d['fn'] is u for u in S.trials)]
@@ -597,6 +616,8 @@ def check_equation(o, S, decls, use_find, m):
     o.count('equation-ok:%d-conditions' % len(decls))
     for d in decls:
         o.count('shape:%s:%s' % (d['shape'], 'vector' if S.is_vec(d['fn']) else 'scalar'))
+        if normal_of(d):
+            o.count('normal-name:' + normal_of(d))
         o.count('faces:%d' % len(d['faces']))
         o.count('kind:' + S.kind_of[id(d['fn'])])
     return None
@@ -888,6 +909,65 @@ def fixed_rebuilt(m):
                (lambda shape=shape: model(shape)))
 
 
+def fixed_normals(m):
+    """fixed corpus (stable keys): the admitted shapes that contain the normal vector (u.n in both argument orders,
+    grad(p).n of a scalar unknown, grad(u).n of a vector unknown), written with NormalVector objects of several
+    names, one model per name plus one whose conditions use different names side by side.  The statement does not
+    mention the name: order, unknown, components, normal flag, position and the per-face expansion must be the
+    same for every name.  Yields (key, what, thunk returning None or a description of the failure)"""
+    def model(names):
+        D = m['Square']('Dnrm18')
+        W = m['VectorFunctionSpace']('Wnrm18', D)
+        V = m['ScalarFunctionSpace']('Vnrm18', D)
+        u, v = W.element('u'), W.element('v')
+        p, q = V.element('p'), V.element('q')
+        n = [m['NormalVector'](nm) for nm in names]
+        f = list(D.boundary.args)
+        dot, grad = m['dot'], m['grad']
+        # (shape, lhs, rhs, faces, order, unknown, components, normal flag)
+        given = [('u.n', dot(u, n[0]), 0, [f[0], f[1]], 0, u, None, True),
+                 ('grad(p).n', dot(grad(p), n[1 % len(n)]), m['Integer'](2), [f[2]], 1, p, None, False),
+                 ('grad(u).n', dot(grad(u), n[2 % len(n)]), 0, [f[2], f[3]], 1, u, None, True),
+                 ('n.u', dot(n[3 % len(n)], u), 1, [f[3]], 0, u, None, True),
+                 ('p', p, 1, [f[0], f[3]], 0, p, None, False)]
+        trials, tests = [p, u], [q, v]
+        bcs = []
+        for g in given:
+            try:
+                bcs.append(m['EssentialBC'](g[1], g[2], m['Union'](*g[3])))
+            except Exception as e:
+                return 'EssentialBC refuses the admitted left-hand side %s = %s: %s(%s)' % (g[0], g[1], type(e).__name__, e)
+        try:
+            eq = m['find'](trials, forall=tests, lhs=m['integral'](D, dot(u, v) + p * q), rhs=m['integral'](D, q), bc=bcs)
+        except Exception as e:
+            return 'find raises %s(%s) although every condition is an admitted one on a trial function' % (type(e).__name__, e)
+        exp = []
+        for shape, lhs, rhs, faces, order, var, comp, normal in given:
+            un = m['Union'](*faces)
+            ordered = list(un.args) if isinstance(un, m['Union']) else [un]
+            pos = [k for k, t in enumerate(trials) if t is var][0]
+            exp += [(shape, lhs, m['sympify'](rhs), fc, order, var, comp, normal, pos) for fc in ordered]
+        got = list(eq.bc or [])
+        if len(got) != len(exp):
+            return 'equation.bc has %d entries, the declarations account for %d' % (len(got), len(exp))
+        for b, (shape, lhs, rhs, fc, order, var, comp, normal, pos) in zip(got, exp):
+            ic = None if b.index_component is None else [int(i) for i in b.index_component]
+            obs = (b.lhs == lhs, b.rhs == rhs, b.boundary == fc, b.order, same_fn(b.variable, var), ic, bool(b.normal_component), b.position)
+            want = (True, True, True, order, True, comp, normal, pos)
+            if obs != want:
+                return 'entry for %s on %s: (lhs kept, rhs kept, face, order, unknown, components, normal, position) = %r, expected %r' % (
+                    shape, fc, obs, want)
+        return None
+
+    for nm in ('nn', 'n', 'normal', 'nu', 'N'):
+        yield ('fixed:normal-name:' + nm,
+               'u.n, grad(p).n, grad(u).n, n.u written with NormalVector(%r) (and p) on a Square, trials (p, u)' % nm,
+               (lambda nm=nm: model([nm])))
+    yield ('fixed:normal-name:mixed',
+           'u.n, grad(p).n, grad(u).n, n.u written with four differently named normal vectors in one equation',
+           lambda: model(['n', 'nn', 'normal', 'nu']))
+
+
 def history_rng(tier, seed, i):
     import random
     return random.Random('C18/history/%s/%s/%d' % (tier, seed, i))
@@ -925,6 +1005,14 @@ def oracle(ctx, factor, seeds):
             o.count('fixed-corpus:u.n:' + kind)
     # fixed corpus: models built twice / conditions written with re-created equal functions
     for key, what, th in fixed_rebuilt(m):
+        o.evaluations += 1
+        bad = th()
+        if bad:
+            o.fail(key, '%s: %s' % (what, bad), fixed=key)
+        else:
+            o.count(key)
+    # fixed corpus: the shapes containing the normal vector, written with normal vectors of several names
+    for key, what, th in fixed_normals(m):
         o.evaluations += 1
         bad = th()
         if bad:
@@ -1009,7 +1097,7 @@ def replay(ctx, path):
         dom = m['Square']('OmReplay')
         cls = m['VectorFunctionSpace'] if det.get('vector') else m['ScalarFunctionSpace']
         u = cls('Vr', dom, kind=det['kind']).element('u')
-        nn = m['NormalVector']('nn')
+        nn = m['NormalVector'](det.get('normal') or 'nn')
         try:
             lhs = {'u': lambda: u, 'u[i]': lambda: u[0], 'u.n': lambda: m['dot'](u, nn), 'n.u': lambda: m['dot'](nn, u),
                    'dn': lambda: m['dot'](m['grad'](u), nn)}[det['shape']]()
@@ -1021,7 +1109,7 @@ def replay(ctx, path):
             return 1
     if 'fixed' in det:
         m = mods()
-        for key, what, th in fixed_rebuilt(m):
+        for key, what, th in list(fixed_rebuilt(m)) + list(fixed_normals(m)):
             if key == det['fixed']:
                 bad = th()
                 if bad:
